@@ -69,6 +69,18 @@ def wm_fn():
               label='mp::internal::WriteMessage', nmatches=1)
 
 
+_drv = [None]
+
+
+def replay(lead, inputs, obs):
+    import subprocess
+    from vp import native
+    if _drv[0] is None:
+        _drv[0] = native.build_driver('c05_replay.cc', 'c05_replay', native.MP_SOURCES, ['-O0'])[0]
+    p = subprocess.run([_drv[0]], capture_output=True, text=True, timeout=300)
+    return p.returncode == 10, (p.stdout + p.stderr)[-2000:], _drv[0]
+
+
 def harnesses(tier, seed):
     parts = [PRE, wm_fn(), '''
 void harness(void) {
@@ -84,4 +96,4 @@ void harness(void) {
 }
 ''']
     return [Harness('C05.WriteMessage', 'C05', parts, enforce='WriteMessage', loop_contracts=True, expect_loop_obligations=2,
-                    stubs=['fputc / fwrite (ghost output model)'], timeout=600)]
+                    stubs=['fputc / fwrite (ghost output model)'], timeout=600, replay=replay)]
